@@ -238,7 +238,7 @@ func VerifH_bgzf_deterministic() {
 	for i := 0; i < ncalls; i++ {
 		switch vrt.Choice("call", 3) {
 		case 0:
-			n := vrt.Choice("wlen", MAXW+1)
+			n := verifLen("wlen", MAXW)
 			b := vrt.Bytes("payload", n)
 			_, e1 := w1.Write(b)
 			_, e2 := w2.Write(b)
@@ -273,7 +273,7 @@ func VerifH_bgzf_durable() {
 	for i := 0; i < ncalls; i++ {
 		switch vrt.Choice("call", 2) {
 		case 0:
-			n := vrt.Choice("wlen", MAXW+1)
+			n := verifLen("wlen", MAXW)
 			b := vrt.Bytes("payload", n)
 			written = append(written, b...)
 			_, err := w.Write(b)
